@@ -2,7 +2,11 @@
    Tick counts depend on the wall clock, so the harness hands the model the schedule
    it OBSERVED: the number of successful pings before the terminating event and the
    kind of that event; the model must reproduce everything else (failed ping, Close,
-   return, silence afterwards whatever the continuation [suffix] offers, wire bytes). *)
+   return, silence afterwards whatever the continuation [suffix] offers, wire bytes).
+   Three transports: 0 a recording stub (the k-th Ping fails); 1 the real XMPPTransport
+   over loopback TCP (which write the kernel refuses is observed; the server's byte
+   count is compared); 2 the real XMPPTransport over a scripted net.Conn (the model finds
+   the failing write in the script itself and lists the conn.Write calls of each Ping). *)
 From Coq Require Import List ZArith NArith Bool.
 From XV Require Import Lib.Sx Model.Keepalive.
 Import ListNotations.
